@@ -9,7 +9,8 @@ EXPLANATION = """
 extend_from_slice of exactly its parameter, once, not in a loop) and sign; in sign the dalek Signer::sign(signing_key, &buf) call
 precedes buf.clear(), clear() lies on every path to the return and the returned bytes are that signature.  signing_key is never written
 after construction.  (2) Determinism: nothing reachable from sign/update draws randomness or reads a clock.  (3) Verifier: update
-appends its parameter, verify = is_ok(VerifyingKey::verify(pubkey, buf, sig)) (C01.5); verifier objects are created per check and never stored.
+appends its parameter, verify = is_ok(VerifyingKey::verify(pubkey, buf, sig)) (C01.5); the verifying key is decoded from exactly the bytes passed to
+MsgVerifier::new (no cache, no global state); verifier objects are created per check and never stored.
 Chunking independence then follows from extend_from_slice being concatenation.
 """
 NOT_DECIDED = "the values of dalek's signatures (RFC 8032 conformance of the dependency)"
@@ -125,6 +126,17 @@ def run(ctx):
     r = ret_as_predicate(W, vf.path)
     okr = is_call(r, "Result::is_ok") and is_call(r[2][0]) and "VerifyingKey" in r[2][0][1] and r[2][0][2][0] == ("field", ("param", vf.path, 1), "pubkey") and r[2][0][2][1] == ("field", ("param", vf.path, 1), "buf")
     ctx.check("verifier", "verify/is-dalek-verify-of-buffer", okr, "verify = is_ok(pubkey.verify(buf, sig))", "verify returns %s" % fmt(r), ctx.loc(vf))
+    # the verifying key is decoded from the caller's bytes and from nothing else (no cache keyed by part of the key, no global state)
+    vn = ctx.fn(V + "::new")
+    for (cfn, bb, idx, f) in W.ctor_fields(V):
+        pk = values.strip_payload(W.expand(f.get("pubkey")))
+        src = pk
+        for _ in range(6):
+            if is_call(src) and callee_name(src[1]) in ("from_bytes", "try_from", "try_into", "from", "into", "as_ref", "deref", "unwrap", "expect", "copied", "cloned") and src[2]:
+                src = values.strip_payload(W.expand(src[2][0]))
+        okpk = is_call(pk) and "VerifyingKey" in pk[1] and callee_name(pk[1]) in ("from_bytes", "try_from") and src == ("param", cfn.path, 1) and cfn.path == vn.path
+        ctx.check("verifier", "new/key-decoded-from-the-given-bytes-only", okpk, "pubkey = VerifyingKey::from_bytes(the 32 bytes passed in)",
+                  "the verifier's key is %s: not a decoding of exactly the bytes passed to MsgVerifier::new" % fmt(pk)[:200], cfn.loc(bb, idx))
     # verifier objects never stored: no ADT has a field of type MsgVerifier, no static
     stored = [a for a, d in P.adts.items() for vv in d["variants"] for f in vv["fields"] if "MsgVerifier" in f["ty"]]
     ctx.check("verifier", "never-stored", not stored, "no type stores a MsgVerifier (created per check)", "MsgVerifier is stored in %s" % stored)
